@@ -333,7 +333,7 @@ def emit(design, connect_order=None, connect_style=None, block_order=None):
     L += ["@bitstruct", f"class {tn}:"] + [f"  {fn}: {type_text(ft)}" for fn, ft in fields] + [""]
   for cn in design["order"]:
     c = design["classes"][cn]
-    L += [f"class {cn}(Component):", "  def construct(s):"]
+    L += [f"class {cn}({design.get('bases', {}).get(cn, 'Component')}):", "  def construct(s):"]
     for sg in c["signals"]:
       if sg["list"]:
         dims = [sg["list"]] if isinstance(sg["list"], int) else list(sg["list"])
@@ -1105,6 +1105,10 @@ class Gen:
 def generate(rng, knobs=None):
   g = Gen(rng, knobs)
   g.design["top"] = g.gen_class(g.k["depth"], True)
+  if g.k.get("p_subclass"):
+    # some classes derive from an EARLIER generated class and override construct() completely: same block names, other bodies
+    order = g.design["order"]
+    g.design["bases"] = {cn: rng.choice(order[:i]) for i, cn in enumerate(order) if i and rng.random() < g.k["p_subclass"]}
   if g.k.get("p_shadow") and rng.random() < g.k["p_shadow"]:
     names = {"i"}
     for c in g.design["classes"].values():
